@@ -3,6 +3,7 @@
 ID=$1; shift
 cd /verif
 EVB=$(mktemp -d /dev/shm/evidence-keep.XXXX); cp -a evidence/. $EVB/   # evidence written against a seeded change must not stay
+[ -f /verif/seeded/$ID/pre.diff ] && git -C /repo apply /verif/seeded/$ID/pre.diff
 git -C /repo apply /verif/seeded/$ID/patch.diff || { echo "patch does not apply"; exit 2; }
 for c in "$@"; do
   echo "== $c against $ID"
